@@ -985,3 +985,204 @@ Proof.
     apply (preferred_src_in T kn GI GC _ _ _ _ Hp).
   - intros Hn. rewrite Hfmt. apply choose_format_supported. exact Hn.
 Qed.
+
+(* ------------------------------------------------------------------ the request as the upstream sees it (URL level) *)
+Section UrlLevel.
+  Variable T : srs -> srs -> bbox -> option bbox.
+  Variable kn kd : Z.
+  Variable GI GC : Z -> bbox -> bool.
+
+  Lemma url_srs_supported src q r tmpl fixed :
+    wms_get_map T kn kd GI GC src q = Request r -> w_srs src <> [] -> ~ In K_SRS (map fst fixed) ->
+    exists c, pget K_SRS (url_params tmpl fixed r) = Some [VStr c] /\ In c (map s_code (w_srs src)).
+  Proof.
+    intros H Hne Hx. exists (s_code (r_srs r)). split; [apply url_srs; exact Hx|].
+    eapply request_srs_code_supported; eassumption.
+  Qed.
+
+  Lemma url_format_supported src q r tmpl fixed :
+    wms_get_map T kn kd GI GC src q = Request r -> w_fmts src <> [] -> ~ In K_FORMAT (map fst fixed) ->
+    exists f e, pget K_FORMAT (url_params tmpl fixed r) = Some [VStr (f_mime f)] /\
+                In e (w_fmts src) /\ (f = e \/ fmt_match f e = true).
+  Proof.
+    intros H Hne Hx. destruct (request_format_supported T kn kd GI GC src q r H Hne) as (e & He & Hm).
+    exists (r_fmt r), e. split; [apply url_format; exact Hx|]. split; assumption.
+  Qed.
+
+  Lemma url_bbox_in_extent src q r tmpl fixed cb cs :
+    wms_get_map T kn kd GI GC src q = Request r -> w_cov src = Some (cb, cs) -> geom_contains_sound GC src ->
+    ~ In K_BBOX (map fst fixed) ->
+    pget K_BBOX (url_params tmpl fixed r) = Some [VBox (r_bbox r)] /\ within_extent T cb cs r.
+  Proof.
+    intros H Hc Hs Hx. split; [apply url_bbox; exact Hx|]. eapply request_bbox_within_extent; eassumption.
+  Qed.
+
+  (* a parameter of the URL that is neither a template parameter nor bbox/width/height/srs/format nor a fixed one
+     nor styles is the lower-cased name of a dimension of the query, and that name is configured to be forwarded *)
+  Lemma url_extra_key_is_configured_dimension src q r tmpl fixed k :
+    wms_get_map T kn kd GI GC src q = Request r ->
+    In k (keys (url_params tmpl fixed r)) ->
+    ~ In k (keys tmpl) -> reserved k = false -> ~ In k (map fst fixed) -> k <> K_STYLES ->
+    In k (w_fwd src) /\ exists d, In d (q_dims q) /\ d_lower d = k.
+  Proof.
+    intros H Hk H1 H2 H3 H4. apply url_params_keys in Hk.
+    destruct Hk as [Hk|[Hk|[Hk|[Hk|Hk]]]]; try tauto; try congruence.
+    apply in_map_iff in Hk. destruct Hk as (d & Hd & Hin).
+    destruct (request_dims_configured T kn kd GI GC src q r d H Hin) as [Hq Hf].
+    rewrite Hd in Hf. split; [exact Hf|]. exists d. split; assumption.
+  Qed.
+
+  (* ---- the clipped bbox is a proper rectangle when request and coverage are in the same SRS (bbox coverage,
+     supported or unrestricted SRS: no transformation is involved) *)
+  Lemma sub_query_proper src cb cs q f r :
+    sub_query T src cb cs q f = Request r -> srs_eq cs (q_srs q) = true ->
+    proper (q_bbox q) = true -> proper cb = true -> bbox_intersects cb (q_bbox q) = true ->
+    proper (r_bbox r) = true.
+  Proof.
+    unfold sub_query, to_srs. intros H He Hq Hc Hi. rewrite He in H.
+    destruct (bbox_position_in_image (q_bbox q) (q_w q) (q_h q) cb) as [[sz off] sub] eqn:B.
+    destruct ((fst sz =? 0) || (snd sz =? 0)); [discriminate|].
+    inversion H; subst; clear H. cbn. eapply bpi_proper; eassumption.
+  Qed.
+
+  Lemma after_srs_proper src q f r cb cs :
+    after_srs T src q f = Request r -> w_cov src = Some (cb, cs) -> srs_eq (q_srs q) cs = true ->
+    proper (q_bbox q) = true -> proper cb = true -> bbox_intersects cb (q_bbox q) = true ->
+    proper (r_bbox r) = true.
+  Proof.
+    unfold after_srs. intros H Hc He Hq Hp Hi. rewrite Hc in H. unfold to_srs in H. rewrite He in H.
+    destruct (bbox_contains cb (q_bbox q)).
+    - inversion H; subst; clear H. cbn. exact Hq.
+    - eapply sub_query_proper; try eassumption. unfold srs_eq in *. lia.
+  Qed.
+
+  Lemma request_bbox_proper_same_srs src q r cb cs :
+    wms_get_map T kn kd GI GC src q = Request r ->
+    w_cov src = Some (cb, cs) -> w_geom src = None -> proper cb = true -> srs_eq (q_srs q) cs = true ->
+    (w_srs src = [] \/ find (fun s => srs_eq (q_srs q) s) (w_srs src) <> None) ->
+    proper (r_bbox r) = true.
+  Proof.
+    unfold wms_get_map. intros H Hc Hg Hp He Hs.
+    destruct (q_ok q) eqn:Eq; [|discriminate]. cbn [negb] in H.
+    destruct (rr_blocks kn kd (w_rr src) q); [discriminate|].
+    rewrite Hc in H. unfold to_srs in H. rewrite He in H. rewrite Hg in H. cbn [cov_intersects] in H.
+    destruct (bbox_intersects cb (q_bbox q)) eqn:Ei; cbn [negb] in H; [|discriminate].
+    assert (Hq : proper (q_bbox q) = true).
+    { unfold q_ok in Eq. apply andb_prop in Eq. tauto. }
+    unfold get_map_inner in H.
+    destruct (w_srs src) as [|a0 rest] eqn:Ew.
+    - eapply after_srs_proper; eassumption.
+    - destruct Hs as [Hs|Hs]; [discriminate|].
+      destruct (find (fun s => srs_eq (q_srs q) s) (a0 :: rest)) as [s|] eqn:Ef; [|congruence].
+      apply find_some in Ef. destruct Ef as [_ Hqs].
+      destruct (code_eq (q_srs q) s).
+      + eapply after_srs_proper; eassumption.
+      + eapply (after_srs_proper src (set_srs q s)); try eassumption; cbn; try assumption.
+        unfold srs_eq in *. lia.
+  Qed.
+End UrlLevel.
+
+(* ------------------------------------------------------------------ the values of the forwarded parameters *)
+Definition kvals (k : Z) (l : list (Z * pval)) : list pval := map snd (filter (fun kv => fst kv =? k) l).
+
+Lemma pget_not_in k m : ~ In k (keys m) -> pget k m = None.
+Proof.
+  induction m as [|[k' vs] r IH]; cbn; [reflexivity|]. intros Hn.
+  destruct (k' =? k) eqn:E; [exfalso; apply Hn; left; lia|]. apply IH. tauto.
+Qed.
+
+Lemma pget_in_keys k m vs : pget k m = Some vs -> In k (keys m).
+Proof.
+  induction m as [|[k' vs'] r IH]; cbn; [discriminate|].
+  destruct (k' =? k) eqn:E; [intros _; left; lia|]. intros H. right. apply IH. exact H.
+Qed.
+
+Lemma pget_group_add k k' v g :
+  pget k (group_add k' v g) =
+  if k' =? k then Some (match pget k g with Some vs => vs ++ [v] | None => [v] end) else pget k g.
+Proof.
+  induction g as [|[k2 vs2] r IH]; cbn.
+  - destruct (k' =? k); reflexivity.
+  - destruct (k2 =? k') eqn:E2; cbn.
+    + destruct (k2 =? k) eqn:E3; destruct (k' =? k) eqn:E4; try reflexivity; lia.
+    + destruct (k2 =? k) eqn:E3.
+      * destruct (k' =? k) eqn:E4; [lia|reflexivity].
+      * exact IH.
+Qed.
+
+Lemma group_add_keys_nodup k v g : NoDup (keys g) -> NoDup (keys (group_add k v g)).
+Proof.
+  induction g as [|[k' vs] r IH]; cbn; intros Hn.
+  - constructor; [intros []|constructor].
+  - destruct (k' =? k) eqn:E; cbn; [exact Hn|].
+    inversion Hn as [|x l Hx Hl]; subst. constructor; [|apply IH; exact Hl].
+    intros Hin. apply group_add_keys in Hin. destruct Hin as [Hin|Hin]; [lia|tauto].
+Qed.
+
+Lemma group_gen_nodup l : forall g, NoDup (keys g) ->
+  NoDup (keys (fold_left (fun g kv => group_add (fst kv) (snd kv) g) l g)).
+Proof.
+  induction l as [|[k v] r IH]; cbn; intros g Hn; [exact Hn|]. apply IH. apply group_add_keys_nodup. exact Hn.
+Qed.
+
+Lemma pget_group_gen k l : forall g,
+  pget k (fold_left (fun g kv => group_add (fst kv) (snd kv) g) l g) =
+  match pget k g, kvals k l with
+  | None, [] => None
+  | None, vl => Some vl
+  | Some vs, vl => Some (vs ++ vl)
+  end.
+Proof.
+  unfold kvals. induction l as [|[k' v] r IH]; intros g; cbn [fold_left filter map fst snd].
+  - destruct (pget k g); [rewrite app_nil_r|]; reflexivity.
+  - rewrite IH. rewrite pget_group_add. cbn [fst snd]. destruct (k' =? k) eqn:E.
+    + cbn [map snd]. destruct (pget k g) as [vs|].
+      * rewrite <- app_assoc. reflexivity.
+      * reflexivity.
+    + reflexivity.
+Qed.
+
+Lemma pget_group k l : pget k (group l) = match kvals k l with [] => None | vl => Some vl end.
+Proof. unfold group. rewrite pget_group_gen. cbn. reflexivity. Qed.
+
+Lemma fold_pset_pget_nodup (g : params) : forall m k, NoDup (keys g) ->
+  pget k (fold_left (fun m' kvs => pset (fst kvs) (snd kvs) m') g m) =
+  match pget k g with Some v => Some v | None => pget k m end.
+Proof.
+  induction g as [|[k1 v1] r IH]; intros m k Hn; cbn [fold_left fst snd]; [reflexivity|].
+  inversion Hn as [|x l Hx Hl]; subst. rewrite IH by exact Hl. cbn [pget].
+  destruct (k1 =? k) eqn:E.
+  - assert (k1 = k) by lia. subst k1. rewrite (pget_not_in k r Hx). apply pget_pset_same.
+  - destruct (pget k r); [reflexivity|]. apply pget_pset_other. lia.
+Qed.
+
+Lemma pget_pupdate k m l :
+  pget k (pupdate m l) = match kvals k l with [] => pget k m | vl => Some vl end.
+Proof.
+  unfold pupdate. rewrite fold_pset_pget_nodup.
+  - rewrite pget_group. destruct (kvals k l); reflexivity.
+  - unfold group. apply group_gen_nodup. constructor.
+Qed.
+
+(* every parameter of the URL other than bbox/width/height/srs/format, the fixed ones and styles has either the
+   value of the request template or exactly the values of the forwarded dimensions of that (lower-cased) name *)
+Lemma url_param_value tmpl fixed r k :
+  reserved k = false -> ~ In k (map fst fixed) -> k <> K_STYLES ->
+  pget k (url_params tmpl fixed r) =
+  match kvals k (map (fun d => (d_lower d, VStr (d_val d))) (r_fwd r)) with
+  | [] => pget k tmpl
+  | vl => Some vl
+  end.
+Proof.
+  intros Hr Hx Hs. unfold url_params.
+  set (m0 := pupdate tmpl _).
+  set (m4 := pset K_FORMAT _ _).
+  set (m6 := fold_left _ fixed m4).
+  assert (H6 : pget k m6 = pget k m0).
+  { unfold m6. rewrite fold_fixed_pget_other by exact Hx. unfold m4.
+    unfold reserved in Hr.
+    rewrite !pget_pset_other by (unfold K_BBOX, K_WIDTH, K_HEIGHT, K_SRS, K_FORMAT in *; lia). reflexivity. }
+  assert (H7 : pget k (match pget K_STYLES m6 with Some _ => m6 | None => pset K_STYLES [VStr V_EMPTY] m6 end) = pget k m6).
+  { destruct (pget K_STYLES m6); [reflexivity|]. apply pget_pset_other. exact Hs. }
+  rewrite H7, H6. unfold m0. apply pget_pupdate.
+Qed.
